@@ -164,13 +164,15 @@ Qed.
 (* ------------------------------------------------------------------ 3. after write_index *)
 
 (* what write_index leaves in the file: the serialized sorted entries at the returned address *)
-Lemma write_index_shape dim es f eof f' eof' addr :
-  write_index dim es f eof = Ok (f', eof', addr) ->
+Lemma write_index_shape rep dim es f eof f' eof' addr :
+  write_index rep dim es f eof = Ok (f', eof', addr) ->
   addr = eof /\ exists pre suf, f' = pre ++ serialize_leaf dim (sort_entries es) ++ suf /\ blen pre = addr.
 Proof.
-  unfold write_index. intros H.
+  unfold write_index, write_index_st, st_result. intros H.
   destruct (negb (forallb (fun e => Nat.eqb (length (w_coord e)) dim) es)); [discriminate|].
-  destruct es as [|e0 er]; [discriminate|]. cbv zeta in H. unfold alloc in H.
+  destruct es as [|e0 er]; [discriminate|].
+  destruct (rep && (MAX_ENTRIES <? N.of_nat (length (e0 :: er)))); [discriminate|].
+  cbv zeta in H. unfold alloc in H.
   destruct (blen (serialize_leaf dim (sort_entries (e0 :: er))) =? 0); [discriminate|].
   inversion H; subst. split; [reflexivity|].
   destruct (write_at_shape f (serialize_leaf dim (sort_entries (e0 :: er))) addr (serialize_leaf_nonempty _ _))
@@ -186,8 +188,8 @@ Qed.
 
 (* after any successful write_index the bytes of the file from the returned address on decode, under the specification
    decoder, to the SORTED entries; the bytes that remain are the rest of the file *)
-Theorem spec_btree1_written_tol tol dim es f eof f' eof' addr :
-  write_index dim es f eof = Ok (f', eof', addr) ->
+Theorem spec_btree1_written_tol tol rep dim es f eof f' eof' addr :
+  write_index rep dim es f eof = Ok (f', eof', addr) ->
   Forall (fun e => entry_ok dim e = true) es -> N.of_nat (length es) < 65536 ->
   exists suf,
     skipn (N.to_nat addr) f' = serialize_leaf dim (sort_entries es) ++ suf /\
@@ -195,7 +197,7 @@ Theorem spec_btree1_written_tol tol dim es f eof f' eof' addr :
       (tg <- devif (64 <? N.of_nat (length es)) tol T_btree1_node_over_capacity;;
        Ok (spec_leaf dim (sort_entries es), tg, suf)).
 Proof.
-  intros Hw He Hn. destruct (write_index_shape _ _ _ _ _ _ _ Hw) as (_ & pre & suf & Hf & Hp).
+  intros Hw He Hn. destruct (write_index_shape _ _ _ _ _ _ _ _ Hw) as (_ & pre & suf & Hf & Hp).
   exists suf. subst f'. rewrite (skipn_blen_app pre _ addr Hp). split; [reflexivity|].
   rewrite spec_btree1_leaf_app.
   - rewrite sort_entries_length. reflexivity.
@@ -203,8 +205,8 @@ Proof.
   - rewrite sort_entries_length. exact Hn.
 Qed.
 
-Theorem spec_btree1_written dim es f eof f' eof' addr :
-  write_index dim es f eof = Ok (f', eof', addr) ->
+Theorem spec_btree1_written rep dim es f eof f' eof' addr :
+  write_index rep dim es f eof = Ok (f', eof', addr) ->
   Forall (fun e => entry_ok dim e = true) es -> N.of_nat (length es) < 65536 ->
   exists suf,
     skipn (N.to_nat addr) f' = serialize_leaf dim (sort_entries es) ++ suf /\
@@ -212,27 +214,27 @@ Theorem spec_btree1_written dim es f eof f' eof' addr :
       Ok (spec_leaf dim (sort_entries es),
           if 64 <? N.of_nat (length es) then [T_btree1_node_over_capacity] else [], suf).
 Proof.
-  intros Hw He Hn. destruct (spec_btree1_written_tol tolerant _ _ _ _ _ _ _ Hw He Hn) as (suf & H1 & H2).
+  intros Hw He Hn. destruct (spec_btree1_written_tol tolerant _ _ _ _ _ _ _ _ Hw He Hn) as (suf & H1 & H2).
   exists suf. split; [exact H1|]. rewrite H2.
   destruct (64 <? N.of_nat (length es)); reflexivity.
 Qed.
 
-Theorem spec_btree1_written_strict dim es f eof f' eof' addr :
-  write_index dim es f eof = Ok (f', eof', addr) ->
+Theorem spec_btree1_written_strict rep dim es f eof f' eof' addr :
+  write_index rep dim es f eof = Ok (f', eof', addr) ->
   Forall (fun e => entry_ok dim e = true) es -> N.of_nat (length es) < 65536 ->
   exists suf,
     skipn (N.to_nat addr) f' = serialize_leaf dim (sort_entries es) ++ suf /\
     spec_dec_btree1 strict 8 8 1 dim 32 (skipn (N.to_nat addr) f') =
       if 64 <? N.of_nat (length es) then Err else Ok (spec_leaf dim (sort_entries es), [], suf).
 Proof.
-  intros Hw He Hn. destruct (spec_btree1_written_tol strict _ _ _ _ _ _ _ Hw He Hn) as (suf & H1 & H2).
+  intros Hw He Hn. destruct (spec_btree1_written_tol strict _ _ _ _ _ _ _ _ Hw He Hn) as (suf & H1 & H2).
   exists suf. split; [exact H1|]. rewrite H2.
   destruct (64 <? N.of_nat (length es)); reflexivity.
 Qed.
 
 (* the same with the model's ReadAt of exactly the node's bytes (the node ends below 2^63): nothing remains *)
-Theorem spec_btree1_written_read dim es f eof f' eof' addr :
-  write_index dim es f eof = Ok (f', eof', addr) ->
+Theorem spec_btree1_written_read rep dim es f eof f' eof' addr :
+  write_index rep dim es f eof = Ok (f', eof', addr) ->
   Forall (fun e => entry_ok dim e = true) es -> N.of_nat (length es) < 65536 ->
   addr + blen (serialize_leaf dim es) <= MAXINT64 ->
   read_at f' addr (blen (serialize_leaf dim es)) = Some (serialize_leaf dim (sort_entries es)) /\
@@ -240,7 +242,7 @@ Theorem spec_btree1_written_read dim es f eof f' eof' addr :
     Ok (spec_leaf dim (sort_entries es),
         if 64 <? N.of_nat (length es) then [T_btree1_node_over_capacity] else [], []).
 Proof.
-  intros Hw He Hn Hm. destruct (write_index_shape _ _ _ _ _ _ _ Hw) as (_ & pre & suf & Hf & Hp).
+  intros Hw He Hn Hm. destruct (write_index_shape _ _ _ _ _ _ _ _ Hw) as (_ & pre & suf & Hf & Hp).
   split.
   - subst f'. apply read_at_app; auto.
     + symmetry. apply blen_serialize_sorted. exact He.
